@@ -84,6 +84,9 @@ def judge(case: dict, results: list[list[dict]], normalisers: list | None = None
         if b["outcome"] in ("harness_error", "timeout"):
             verdict.setdefault("harness_notes", []).append(f"history {idx}: {b['outcome']} {b.get('error', '')[:300]}")
             return
+        if b.get("env_unrepresentable"):
+            verdict.setdefault("harness_notes", []).append(f"history {idx}: non-ASCII file names under an ASCII file-system encoding: not comparable")
+            return
         if a["outcome"] != b["outcome"]:
             verdict["violations"].append(
                 {
